@@ -219,6 +219,21 @@ def gen_text_mutants(repo):
         ("rules.py", "set_datum(data_copy, datum_path, cast_datum)", "set_datum(data_copy, datum_path, datum)", {"C15"}, "write-back-uncast-value", None),
         ("conditions.py", "elif isinstance(arg, dict):\n        return {k: resolve_data_path_arg(v, source_data) for k, v in arg.items()}", "", {"C17"}, "resolver-skips-mappings", None),
         ("casting.py", "(str, int): int,", "(str, int): float,", {"C13"}, "cast-table-changed-neutral-for-roundtrip", "neutral"),
+        ("conditions.py", '"in": "in_",', '"in": "not_in",', {"C09"}, "callable-alias-wrong", None),
+        ("conditions.py", '"len": "length",', '"len": "dtype",', {"C09"}, "preproc-alias-wrong", None),
+        ("conditions.py", '"int": int,', '"int": float,', {"C09", "C11"}, "type-name-table-wrong", None),
+        ("conditions.py", 'elif len(func_args["POSITIONAL_OR_KEYWORD"]) == 1 and not any(\n                func_args[i] for i in ("VAR_POSITIONAL", "VAR_KEYWORD")\n            ):\n                # exactly one', 'elif len(func_args["POSITIONAL_OR_KEYWORD"]) >= 1 and not any(\n                func_args[i] for i in ("VAR_POSITIONAL", "VAR_KEYWORD")\n            ):\n                # exactly one', {"C09", "C11"}, "reader-ladder-branch-widened", None),
+        ("conditions.py", "def in_range(cls, lower, upper):", "def in_range(cls, low, upper):", {"C01", "C09", "C11"}, "constructor-parameter-renamed", None),
+        ("conditions.py", "return cls(call_funcs.in_range, lower=lower, upper=upper)", "return cls(call_funcs.in_range, lower, upper)", {"C11", "C09"}, "constructor-stores-positionally", None),
+        ("conditions.py", "return cls(call_funcs.keys_contain_all_of, *keys)", "return cls(call_funcs.keys_contain_any_of, *keys)", {"C01", "C09"}, "constructor-binds-sibling-callable", None),
+        ("conditions.py", "return {self.FLATTEN_SYMBOL: [i.to_json_like() for i in self.children]}", "return {self.FLATTEN_SYMBOL: [i.to_json_like() for i in self.children[:1]]}", {"C11"}, "combination-serialises-first-child-only", None),
+        ("conditions.py", "spec_val = copy.deepcopy(list(self.callable.args))", "spec_val = copy.deepcopy(self.callable.kwargs)", {"C11"}, "writer-varargs-branch-emits-kwargs", None),
+        ("datapath.py", "if part.label is not None:", "if False:", {"C12"}, "labels-silently-dropped", None),
+        ("datapath.py", "and part.condition == cnds.NullCondition()\n            ):\n                if part.CONTAINER_TYPE is Container.MAP:", "):\n                if part.CONTAINER_TYPE is Container.MAP:", {"C12"}, "bare-type-for-any-condition", None),
+        ("datapath.py", "and is_single_cond\n                and isinstance(part.condition, cnds.Key)", "and isinstance(part.condition, cnds.Key)", {"C12"}, "simplify-drops-single-condition-guard", None),
+        ("rules.py", '"cast": cast,\n', "", {"C13"}, "cast-not-serialised", None),
+        ("schema.py", "out = [i.to_json_like() for i in self.rules]", "out = [i.to_json_like() for i in self.rules[:-1]]", {"C13"}, "schema-drops-last-rule", None),
+        ("rules.py", "cast_to_types = {(k[0], v): k[1] for k, v in CAST_LOOKUP.items()}", "cast_to_types = {(k[0], v): k[0] for k, v in CAST_LOOKUP.items()}", {"C13", "C15"}, "cast-written-as-source-type", None),
         ("conditions.py", "pathlib.Path: \"path\",", "pathlib.Path: \"str\",", {"C11"}, "inverse-type-table-broken", None),
     ]
     for e in edits:
